@@ -189,7 +189,8 @@ func initAllowed(path string) bool {
 		"github.com/mdlayher/schedgroup", "github.com/mdlayher/metricslite", "container/heap",
 		"internal/bytealg", "internal/itoa", "internal/stringslite", "unique", "fmt", "log",
 		"github.com/jsimonetti/rtnetlink", "github.com/mdlayher/netlink", "golang.org/x/sys/unix",
-		"github.com/mdlayher/sdnotify", "net/http", "encoding/json":
+		"github.com/mdlayher/sdnotify", "net/http", "encoding/json",
+		"golang.org/x/text/unicode/norm", "golang.org/x/text/unicode/bidi", "golang.org/x/text/secure/bidirule", "unicode":
 		return true
 	}
 	return false
@@ -198,7 +199,7 @@ func initAllowed(path string) bool {
 // heavy packages whose initialisers are never executed even if whitelisted above
 func initSkip(path string) bool {
 	switch path {
-	case "fmt", "log", "syscall", "net/http", "encoding/json", "golang.org/x/net/idna", "golang.org/x/sys/unix",
+	case "fmt", "log", "syscall", "net/http", "encoding/json", "golang.org/x/sys/unix",
 		"github.com/mdlayher/netlink", "github.com/jsimonetti/rtnetlink", "net/url", "math/rand", "sync", "unique",
 		"strings", "bytes", "github.com/mdlayher/sdnotify", "github.com/mdlayher/metricslite":
 		return true
